@@ -37,7 +37,7 @@ fn op(n_assets: u8) -> BoxedStrategy<Op> {
         4 => (0u8..5).prop_map(|caller| Op::Collect { caller }),
         1 => (0u8..5).prop_map(|caller| Op::CollectTwice { caller }),
         1 => (0u8..4, 1u16..20000).prop_map(|(user, k)| Op::Provide { user, k }),
-        1 => (0u8..4, any::<u16>()).prop_map(|(user, k)| Op::Withdraw { user, k }),
+        1 => (0u8..4, gen::share_sel()).prop_map(|(user, k)| Op::Withdraw { user, k }),
         1 => gen::small_fee_triple().prop_map(|f| Op::SetFees { fees: [Uint128::new(f[0]), Uint128::new(f[1]), Uint128::new(f[2])] }),
     ]
     .boxed()
